@@ -58,6 +58,19 @@ func fixedTrees() []treeDef {
 					simple("l3", []string{"get", "delete"}, nil,
 						coll("l4", []string{"get", "get_all", "partial_update"}, nil, []actionSpec{{"deepEnt", true}, {"deepRes", false}})))),
 		}},
+		// several sub-resources under one deep node (and under its children): whatever a node keeps
+		// per registration — its path as shown to filters — must be its own, not a sibling's
+		{"deep-siblings", []*nodeSpec{
+			coll("albums", []string{"get"}, nil, nil,
+				coll("photos", []string{"get"}, nil, nil,
+					coll("comments", []string{"get", "get_all"}, nil, nil,
+						coll("likes", []string{"get", "get_all"}, nil, []actionSpec{{"likeEnt", true}},
+							simple("who", []string{"get"}, nil),
+							coll("when", []string{"get"}, nil, nil)),
+						coll("flags", []string{"get", "create"}, []string{"byKind"}, nil,
+							simple("why", []string{"get", "update"}, nil)),
+						simple("pin", []string{"get", "delete"}, []actionSpec{{"unpin", false}})))),
+		}},
 	}
 }
 
